@@ -136,6 +136,37 @@ theorem planned_source_mode (O : Oracle) (umask : Nat) (mtime : Int) (c : Conten
 
 example : stPerm (2 ^ 23 + 0o755) = 0o4755 ∧ unixModeBits (2 ^ 23 + 0o755) = 0o4755
     ∧ unixModeBits (2 ^ 31 + 2 ^ 20 + 0o777) = 2 ^ 31 + 0o1777 := by decide
+/-- translating twice changes nothing: a mode that already has its special bits in configuration position is kept -/
+theorem unixModeBits_idem (m : Nat) : unixModeBits (unixModeBits m) = unixModeBits m := by
+  apply Nat.eq_of_testBit_eq
+  intro i
+  rw [unixModeBits_testBit (unixModeBits m) i]
+  have h23 : (unixModeBits m).testBit 23 = false := by rw [unixModeBits_testBit]; simp
+  have h22 : (unixModeBits m).testBit 22 = false := by rw [unixModeBits_testBit]; simp
+  have h20 : (unixModeBits m).testBit 20 = false := by rw [unixModeBits_testBit]; simp
+  rw [h23, h22, h20]
+  by_cases a : 23 = i
+  · subst a; simp [h23]
+  · by_cases b : 22 = i
+    · subst b; simp [h22]
+    · by_cases c : 20 = i
+      · subst c; simp [h20]
+      · simp [a, b, c]
+
+/-- a mode given in the configuration (no io/fs special bits) passes through unchanged -/
+theorem unixModeBits_declared (m : Nat) (h1 : m.testBit 23 = false) (h2 : m.testBit 22 = false) (h3 : m.testBit 20 = false) :
+    unixModeBits m = m := by
+  apply Nat.eq_of_testBit_eq
+  intro i
+  rw [unixModeBits_testBit, h1, h2, h3]
+  by_cases a : 23 = i
+  · subst a; simp [h1]
+  · by_cases b : 22 = i
+    · subst b; simp [h2]
+    · by_cases c : 20 = i
+      · subst c; simp [h3]
+      · simp [a, b, c]
+
 end SourceModes
 
 /-- the member list of a tar format with times as archive/tar stores them -/
